@@ -537,7 +537,56 @@ def build(scene):
     b.objects, b.contents, b.programmes = objs, conts, progs
     b.given = progs[scene["given"]] if scene["given"] is not None else None
     b.selected = [objs[i] for i in scene["selected"]]
+    _inject_structure(scene, b, roots)
     return b
+
+
+STRUCTURE_INJECTIONS = ("diamond", "pack-loop", "empty-pack")
+
+
+def _inject_structure(scene, b, roots):
+    """Documents that validate_structure rejects in _validate_pack_channel_multitree (a node reachable twice, a
+    pack loop) and a document with a channel-less pack (accepted): only the validation predicates of these are
+    compared with the model (`W` request), done last so that nothing above walks a looping pack graph."""
+    import random
+    from ear.fileio.adm.elements import AudioPackFormat, TypeDefinition
+    inj = scene.get("inject")
+    if inj not in STRUCTURE_INJECTIONS:
+        return
+    irng = random.Random(scene["track_seed"] ^ 0x5A5A5A)
+    own = [r for r in roots if not r.is_common_definition and r.type != TypeDefinition.Matrix]
+    if inj == "empty-pack":
+        pk = AudioPackFormat(audioPackFormatName="empty", type=TypeDefinition.Objects)
+        b.adm.addAudioPackFormat(pk)
+        return
+    if not own:
+        return
+    r = irng.choice(own)
+
+    def descend(p):
+        out = [p]
+        for s_ in p.audioPackFormats:
+            out += descend(s_)
+        return out
+    packs = descend(r)
+    if inj == "pack-loop":
+        packs[-1].audioPackFormats.append(r)  # deepest pack refers back to the root (a self-loop if there is none)
+        return
+    variants = []
+    if r.audioChannelFormats:
+        variants.append("channel-twice")
+    if r.audioPackFormats:
+        variants.append("subpack-twice")
+    sub_ch = [c for p in packs[1:] for c in p.audioChannelFormats]
+    if sub_ch:
+        variants.append("channel-via-two-paths")
+    v = irng.choice(variants) if variants else None
+    if v == "channel-twice":
+        r.audioChannelFormats.append(r.audioChannelFormats[0])
+    elif v == "subpack-twice":
+        r.audioPackFormats.append(r.audioPackFormats[0])
+    elif v == "channel-via-two-paths":
+        r.audioChannelFormats.append(irng.choice(sub_ch))
 
 
 def redeclare(b, rng, children):
